@@ -599,12 +599,26 @@ def _htmldiff(old, new, comparator, include='all'):
 # tokenization phase, though.
 def _limit_spacers(tokens, max_spacers):
     limited_tokens = []
+    # Spacers render as nothing themselves, but can carry the tags that
+    # surround them. Those tags have to survive when a spacer is dropped.
+    dropped_tags = []
     for token in tokens:
         if isinstance(token, SpacerToken):
             if max_spacers <= 0:
+                dropped_tags.extend(token.pre_tags)
+                dropped_tags.extend(token.post_tags)
                 continue
             max_spacers -= 1
+        if dropped_tags:
+            token.pre_tags = dropped_tags + token.pre_tags
+            dropped_tags = []
         limited_tokens.append(token)
+
+    if dropped_tags:
+        if limited_tokens:
+            limited_tokens[-1].post_tags.extend(dropped_tags)
+        else:
+            limited_tokens.append(DiffToken('', pre_tags=dropped_tags))
 
     return limited_tokens
 
